@@ -62,6 +62,8 @@ type Contracts struct {
 	Folds map[string]*Fold
 	// SpecFns: declared uninterpreted spec functions: name -> (argument sorts, result sort)
 	SpecFns map[string]*SpecFn
+	// MapRanges: "func key#k" -> justification class of the k-th range-over-map of that function
+	MapRanges map[string]string
 	// SMT: raw SMT-LIB axioms defining spec functions (trusted definitions, printed in the evidence)
 	SMT []string
 }
@@ -226,7 +228,7 @@ func parseClause(text string) (Clause, error) {
 // ParseContracts reads every "//@" line of the given files (name -> text). Keys are fully
 // qualified: pkg.Func, pkg.Type.Method (pkg = last import path element; lib/go is "lib").
 func ParseContracts(files map[string]string) (*Contracts, error) {
-	cs := &Contracts{Funcs: map[string]*Contract{}, Containers: map[string]string{}, Preds: map[string]*Pred{}, TypeInvs: map[string]Clause{}, Immutable: map[string]bool{}, Folds: map[string]*Fold{}, SpecFns: map[string]*SpecFn{}}
+	cs := &Contracts{Funcs: map[string]*Contract{}, Containers: map[string]string{}, Preds: map[string]*Pred{}, TypeInvs: map[string]Clause{}, Immutable: map[string]bool{}, Folds: map[string]*Fold{}, SpecFns: map[string]*SpecFn{}, MapRanges: map[string]string{}}
 	var names []string
 	for n := range files {
 		names = append(names, n)
@@ -264,6 +266,12 @@ func ParseContracts(files map[string]string) (*Contracts, error) {
 				cs.Funcs[key] = cur
 				cs.Order = append(cs.Order, key)
 				curGuard = nil
+			case "maprange":
+				if len(fields) != 4 {
+					return nil, fail(fmt.Errorf("maprange <func> <ordinal> <class>"))
+				}
+				cs.MapRanges[fields[1]+"#"+fields[2]] = fields[3]
+				cur, curGuard = nil, nil
 			case "smt":
 				cs.SMT = append(cs.SMT, rest)
 				cur, curGuard = nil, nil
